@@ -107,6 +107,32 @@ def check_tables(chk) -> None:
     chk.expect(lw == want, "lw-total", "src/rnapolis/common.py LeontisWesthof", "LeontisWesthof has all 18 members c/t x {W,H,S}^2", "LeontisWesthof is not the full set of 18 classes: some cis/trans+edge combination raises KeyError", "common:LeontisWesthof:members", expected=sorted(want), found=sorted(lw))
 
 
+def check_exact_query(chk, fi: FuncInfo, call: ast.Call, rule: str) -> None:
+    """The neighbour search decides the distance clause by itself (nothing downstream measures the distance again), so it has
+    to be the exact Euclidean query: scipy's `eps` > 0 accepts / rejects whole node pairs within r*(1+eps) / r/(1+eps) without a
+    distance test, and `p` != 2 is another metric.  Any further argument of the query is read as a fact: folded and compared."""
+    f = Folder(chk.repo, fi.module.name)
+    extra = {}
+    for k in call.keywords:
+        if k.arg in (None, "r"):
+            continue
+        extra[k.arg] = f.try_fold(k.value, "<not a constant>")
+    names = ["r", "p", "eps", "output_type"]
+    for i, a in enumerate(call.args[1:], start=1):
+        extra[names[i] if i < len(names) else f"arg{i}"] = f.try_fold(a, "<not a constant>")
+    bad = {k: v for k, v in extra.items() if not ((k == "eps" and v in (0, 0.0)) or (k == "p" and v in (2, 2.0)) or (k == "output_type" and v == "set"))}
+    chk.expect(
+        not bad,
+        rule,
+        fi.site(call),
+        "the neighbour query is the exact Euclidean one (no eps, p = 2): the pairs it returns are exactly those within the radius",
+        f"the neighbour query is called with {bad}: " + ("with eps > 0 scipy accepts or rejects whole pairs of tree nodes without computing distances, so the cut-off becomes a band r/(1+eps) .. r*(1+eps) and no later statement re-checks the distance" if "eps" in bad else "the pairs returned are no longer exactly those within the Euclidean radius"),
+        K(fi, "query-exact"),
+        expected="query_pairs(r)",
+        found={k: str(v) for k, v in bad.items()},
+    )
+
+
 def check_radius(chk, fi: FuncInfo, loop: ast.For) -> None:
     c = spec("constants.json")["C03"]
     # radius
@@ -121,6 +147,7 @@ def check_radius(chk, fi: FuncInfo, loop: ast.For) -> None:
         expected=c["hbond_max_distance"],
         found=r,
     )
+    check_exact_query(chk, fi, loop.iter, "contact-radius")
     n_q = len(astq.calls(fi.node, "query_pairs")) + len(astq.calls(fi.node, "query_ball_point")) + len(astq.calls(fi.node, "query"))
     chk.expect(n_q == 1, "contact-source", fi.where, "one KD-tree query is the only source of contacts", f"{n_q} KD-tree queries: contacts have more than one source", K(fi, "sources"))
 
